@@ -28,7 +28,7 @@ def jobs(tier):
     if tier == "quick":
         sh = sched.shapes(2, maxtop=3, maxleaves=4, always=True) + [s for s in sched.shapes(2, maxtop=2, maxkids=3, maxleaves=4) if any(x != "L" and len(x[2]) == 3 for x in s)]
     else:
-        sh = sched.shapes(3, maxtop=3, maxleaves=4, always=True) + [s for s in sched.shapes(2, maxtop=2, maxkids=3, maxleaves=5) if any(x != "L" and len(x[2]) == 3 for x in s)]
+        sh = sched.thorough_shapes(always=True) + [s for s in sched.shapes(2, maxtop=2, maxkids=3, maxleaves=5) if any(x != "L" and len(x[2]) == 3 for x in s)]
     return [("C02", s) for s in sh]
 
 
